@@ -86,7 +86,7 @@ func init() {
 					}
 				}
 				// errors that wrap a cancellation / deadline of something else (the call's own context is alive)
-				for _, fl := range []string{"canceled-wrapped", "deadline-wrapped"} {
+				for _, fl := range []string{"canceled-wrapped", "deadline-wrapped", "closed-pipe", "epipe", "eof"} {
 					dw := NewDrv(op, doc)
 					dw.WriterFailAt, dw.ErrFlavour = 1, fl
 					nm := fmt.Sprintf("c14/doc%d/%s/writer@1/%s", di, op, fl)
